@@ -27,6 +27,11 @@ CLAIMED = {
    "For every include graph on 3 files with <= 3 edges (all 512 in thorough) and the chain/diamond/cycle/star shapes on 4 files, with two content variants per file (variant 2 toggles one include edge), all histories of load(root_i) from disk, load from editor content, edit-file+InvalidateFile, ClearCache and limit changes are explored breadth-first to depth 5 (7 thorough) with state de-duplication; after every load the result (primary, files with their content identity, order, verdicts) must equal a fresh loader's on the current disk.",
    "State key contains the cache contents read through an overlay accessor, so histories are merged only when the loader really is in the same state. Files changed on disk without invalidation are excluded by the property.",
    "DESIGN.md §3.4, §5 C11"),
+ "C12": ("model_checking",
+   "explicit-state BFS over update histories on a live real Workspace (fresh instance + replay + one UpdateFile), state key = disk variant vector + canonical dump of index, graphs and resolved tree, differential oracle against a fresh Workspace.Initialize after every step",
+   "Workspaces of 2..4 files (thorough: ..5) under main.journal with 3 (thorough 4) content variants per file that collide by construction (same payee with identical and different posting templates, shared accounts / commodities / tags / tag values / dates, commodity directives with different formats, account declarations, include lines that make files and subtrees reachable or unreachable, cycles included); every sequence of update(file, variant) up to depth 6 (thorough 8) with state de-duplication. After every update: member files, accounts (All and ByPrefix), payees, commodities, tags, tag values, dates, five count maps, transaction index, declared accounts/commodities must equal a rebuild exactly; payee templates and commodity formats must equal it whenever the member files agree and otherwise be a value some member file defines.",
+   "Rebuild = NewWorkspace + Initialize with a fresh loader on the same disk. Updates carrying editor text that differs from disk have no rebuild reference and are not covered. Histories are sharded by first update; states are de-duplicated per shard.",
+   "DESIGN.md §3.4, §5 C12"),
 }
 
 NOT_YET = "check not built yet in this session (work in progress; see DESIGN.md §5 for the plan)"
